@@ -7,6 +7,16 @@
 \*  - the identifier map is a bijection from the input's labels onto those names and applying it gives the returned quads
 EXTENDS Iso, Json, IOUtils
 NQ == INSTANCE NQuads
+\* the transcription of the W3C algorithm (toy hash): used here only to recognise the inputs on which the ALGORITHM leaves the result
+\* open (Rdfc10!OutcomeDocs: a tie at step 5.3 or 5.4.6 between alternatives that are no automorphic images) - the one class of inputs on which an
+\* implementation that follows RDFC-1.0 to the letter cannot be label-independent
+R == INSTANCE Rdfc10 WITH Seed <- 0, Multi <- FALSE
+RConv(t) == IF t.k = "iri" THEN [k |-> "i", v |-> t.v]
+            ELSE IF t.k = "bnode" THEN [k |-> "b", v |-> t.v]
+            ELSE IF t.k = "lit" THEN [k |-> "l", lex |-> t.lex, dt |-> t.dt, lang |-> t.lang]
+            ELSE [k |-> "d"]
+W3cAmbiguous(d) == LET D == [i \in 1..Len(d) |-> <<RConv(d[i][1]), RConv(d[i][2]), RConv(d[i][3]), RConv(d[i][4])>>]
+                   IN Cardinality(R!OutcomeDocs(D)) > 1
 Rec == ndJsonDeserialize(IOEnv.TRACE)
 VARIABLE l
 SetOfSeq(s) == {s[i] : i \in 1..Len(s)}
@@ -58,9 +68,13 @@ Judge(e) ==
            pairWhich(h) == CHOOSE p \in (1..n) \X (1..n) : badPair(h, p[1], p[2])
        IN IF \E i \in 1..n : per[i] # "ok" THEN LET i == CHOOSE i \in 1..n : per[i] # "ok" IN <<per[i], i>>
           ELSE IF pairBad("sha256") THEN LET p == pairWhich("sha256") IN
-                 <<IF m[p[1]].sha256.text = m[p[2]].sha256.text THEN "same-document-for-non-isomorphic-datasets" ELSE "different-documents-for-isomorphic-datasets", p[1] * 10 + p[2]>>
+                 <<IF m[p[1]].sha256.text = m[p[2]].sha256.text THEN "same-document-for-non-isomorphic-datasets"
+                   ELSE IF W3cAmbiguous(m[p[1]].d) THEN "w3c-algorithm-ambiguous:different-documents-for-isomorphic-datasets"
+                   ELSE "different-documents-for-isomorphic-datasets", p[1] * 10 + p[2]>>
           ELSE IF pairBad("sha384") THEN LET p == pairWhich("sha384") IN
-                 <<IF m[p[1]].sha384.text = m[p[2]].sha384.text THEN "same-document-for-non-isomorphic-datasets(sha384)" ELSE "different-documents-for-isomorphic-datasets(sha384)", p[1] * 10 + p[2]>>
+                 <<IF m[p[1]].sha384.text = m[p[2]].sha384.text THEN "same-document-for-non-isomorphic-datasets(sha384)"
+                   ELSE IF W3cAmbiguous(m[p[1]].d) THEN "w3c-algorithm-ambiguous:different-documents-for-isomorphic-datasets"
+                   ELSE "different-documents-for-isomorphic-datasets(sha384)", p[1] * 10 + p[2]>>
           ELSE <<"ok", 0>>
 Init == l = 1
 Next == /\ l <= Len(Rec) /\ l' = l + 1
